@@ -26,8 +26,8 @@ Definition same_res (x y : res) : Prop :=
 (* the reason the gate records / raises for a header that does not verify *)
 Definition hdr_reason (h : hdr) : preason :=
   match h with
-  | HAbsent | HEmpty => RNoProof
-  | HMulti => RMalformed
+  | HAbsent => RNoProof
+  | HEmpty | HMulti => RMalformed
   | HToken (Some r) => r
   | HToken None => RNoProof
   end.
